@@ -1,10 +1,14 @@
 """C01 — the IH5 overlay is transparent: patch boundaries are unobservable.
 
 Theorems (coq/Properties/C01.v): the overlay model refines the plain-tree specification for
-every history and every boundary placement.  Correspondence: random and targeted histories
-run on a real IH5Record (view after every step + raw container files at the end) against the
-overlay model, and on a plain h5py.File against the specification tree.  Oracle for the
-failing-input search: IH5Record vs. h5py.File in lock-step (no model involved).
+every history and every boundary placement (create_group, create_dataset, delete, attribute
+set/delete, boundaries; copy/move are covered by the correspondence only).
+
+Correspondence: targeted and random histories run on a real IH5Record in a temp dir — result
+class and full view (visititems + attributes + values) after every step, raw container files
+at the end — against the overlay model, and on a plain h5py.File against the specification
+tree of the model.  Oracle for the failing-input search (no model involved): IH5Record vs.
+h5py.File in lock-step on the same history.
 """
 from __future__ import annotations
 
@@ -13,31 +17,57 @@ from typing import Any, Dict, List, Optional
 import ih5lib
 import vlib
 
+OP_TIMEOUT = 40       # per operation / per read-back; generous because the machine is shared
+SHRINK_TIMEOUT = 6    # only while shrinking a non-terminating case; the result is re-confirmed
 
-def w_both(ops):
+# keys from the documented IH5 alphabet: printable ASCII without '@' (and '/', the separator);
+# "." alone is excluded because HDF5 itself reads it as "this group"
+KEY_POOL = ["a", "b", "c", "d", "!", "~", "a.b", "..", "x-1", "Z9", "#", "%s", "k=v", "[0]", "(", ")",
+            "\"q\"", "'", "\\", "*", "?", "|", "{}", "+", "^", "`", "$", "&", ";", "<>", ",", "a_b",
+            "0", "-", "=", ":", "~~", "!a"]
+VALUES = ["i:0", "i:1", "i:7", "i:42", "i:-3", "v:00", "v:7f00", "v:417f", "v:deadbeef", "v:7f7f", "e:"]
+
+
+# ---------------------------------------------------------------------------- workers
+
+def _both(ops, op_timeout):
     try:
-        a = ih5lib.exec_ih5(ops)
+        a = ih5lib.exec_ih5(ops, op_timeout=op_timeout)
     except Exception as e:  # noqa: BLE001
-        a = {"steps": [["X", f"harness: {type(e).__name__}: {e}"[:200]]] * len(ops), "raw": None}
+        a = {"steps": [["H", f"harness: {type(e).__name__}: {e}"[:200]]] * len(ops), "raw": None}
     b = ih5lib.exec_h5(ops)
     return a, b
+
+
+def w_both(ops):
+    return _both(ops, OP_TIMEOUT)
 
 
 def first_diff(ih5, h5) -> Optional[Dict[str, Any]]:
     """Property oracle on the code alone: first step where IH5 and plain HDF5 differ."""
     for i, (s, t) in enumerate(zip(ih5["steps"], h5["steps"])):
+        if s[0] == "H":
+            return {"step": i, "cls": "harness", "what": s[1]}
         if s[0] == "X":
-            return {"step": i, "what": f"operation did not terminate / record unusable ({s[1]})"}
+            return {"step": i, "cls": "timeout", "what": f"operation or read-back did not terminate ({s[1]})"}
         if s[0] != t[0]:
-            return {"step": i, "what": f"outcome differs: IH5 {'ok' if s[0]=='T' else 'refused'} vs plain HDF5 {'ok' if t[0]=='T' else 'refused'}",
+            return {"step": i, "cls": "outcome",
+                    "what": f"outcome differs: IH5 {'ok' if s[0] == 'T' else 'refused'} vs plain HDF5 {'ok' if t[0] == 'T' else 'refused'}",
                     "detail": s[2] if len(s) > 2 else ""}
         if s[1] != t[1]:
             if s[1] and s[1][0] == "READ-ERROR":
-                return {"step": i, "what": f"reading the record fails after the step: {s[1][1]}"}
+                return {"step": i, "cls": "read-error", "what": f"reading the record fails after the step: {s[1][1]}"}
             only_i = [e for e in s[1] if e not in t[1]][:3]
             only_h = [e for e in t[1] if e not in s[1]][:3]
-            return {"step": i, "what": "tree differs from plain HDF5", "only_in_ih5": only_i, "only_in_h5": only_h}
+            cls = "resurrected" if only_i and not only_h else ("hidden" if only_h and not only_i else "tree")
+            return {"step": i, "cls": cls, "what": "tree differs from plain HDF5", "only_in_ih5": only_i, "only_in_h5": only_h}
     return None
+
+
+def oracle_fails(ops, op_timeout=OP_TIMEOUT) -> Optional[Dict[str, Any]]:
+    a, b = _both(ops, op_timeout)
+    d = first_diff(a, b)
+    return None if d is None or d["cls"] == "harness" else d
 
 
 def canon_history(ops) -> List[Any]:
@@ -68,61 +98,154 @@ def canon_history(ops) -> List[Any]:
     return out
 
 
-def oracle_fails(ops) -> Optional[Dict[str, Any]]:
-    a, b = w_both(ops)
-    return first_diff(a, b)
+def w_shrink(hit):
+    """Shrink one failing history (worker): cut after the failing step, ddmin over the
+    operations keeping the failure class, then simplify values."""
+    ops, cls, step = hit["ops"], hit["cls"], hit["step"]
+    ops = list(ops[:step + 1])
+    tmo = SHRINK_TIMEOUT if cls == "timeout" else OP_TIMEOUT
 
-
-def shrink(ops):
-    ops = vlib.ddmin(list(ops), lambda sub: oracle_fails(sub) is not None, budget=80)
-    return ops
+    def fails(sub):
+        d = oracle_fails(sub, tmo)
+        return d is not None and d["cls"] == cls
+    if not fails(ops):
+        return None            # not reproducible alone (e.g. a timeout caused by machine load)
+    small = vlib.ddmin(ops, fails, budget=70)
+    # simplify values: all equal where the failure survives
+    cand = [([o[0], o[1], "i:1"] if o[0] == "set" else ([o[0], o[1], o[2], "i:1"] if o[0] == "aset" else o)) for o in small]
+    if cand != small and fails(cand):
+        small = cand
+    d = oracle_fails(small, OP_TIMEOUT)
+    if d is None or d["cls"] != cls:
+        return None
+    return {"ops": small, "diff": d}
 
 
 def norm_view(v):
     return sorted(v, key=lambda e: e[0])
 
 
+# ---------------------------------------------------------------------------- generation
+
+def _cap_boundaries(ops, maxb=5):
+    out, nb = [], 0
+    for o in ops:
+        if o[0] == "bnd":
+            nb += 1
+            if nb > maxb:
+                continue
+        out.append(o)
+    return out
+
+
+def targeted(rng, keys, attr_keys) -> List[Any]:
+    """Random instance of one of the shapes the property names; returned as a prefix."""
+    k = rng.sample(keys, min(len(keys), 5))
+    while len(k) < 5:
+        k.append(rng.choice(keys))
+    val = lambda: rng.choice(VALUES)  # noqa: E731
+    ak = lambda: rng.choice(attr_keys)  # noqa: E731
+    mb = lambda p=0.6: [["bnd"]] if rng.random() < p else []  # noqa: E731
+    shape = rng.randrange(4)
+    H: List[Any] = []
+    if shape == 0:      # replace-then-touch chain across >= 3 containers
+        H += [["set", [k[0], k[1]], val()]]
+        if rng.random() < 0.5:
+            H += [["aset", [k[0]], ak(), val()]]
+        H += [["bnd"], ["del", [k[0]]]] + mb(0.3)
+        H += [rng.choice([["grp", [k[0]]], ["set", [k[0]], val()], ["set", [k[0], k[2]], val()], ["grp", [k[0], k[2], k[3]]]])]
+        for _ in range(rng.randint(1, 3)):
+            H += [["bnd"], rng.choice([["set", [k[0], k[3]], val()], ["aset", [k[0]], ak(), val()],
+                                       ["grp", [k[0], k[4]]], ["aset", [k[0], k[2]], ak(), val()],
+                                       ["adel", [k[0]], ak()], ["set", [k[0], k[2], k[4]], val()]])]
+    elif shape == 1:    # create below deleted ancestors
+        H += [["set", [k[0], k[1], k[2]], val()]] + mb()
+        H += [["del", rng.choice([[k[0]], [k[0], k[1]]])]] + mb()
+        H += [rng.choice([["grp", [k[0], k[1], k[3], k[4]]], ["set", [k[0], k[1], k[3]], val()],
+                          ["grp", [k[0], k[1], k[2]]], ["set", [k[0], k[1], k[2], k[3]], val()]])] + mb()
+        H += [rng.choice([["set", [k[0], k[4]], val()], ["grp", [k[0], k[1], k[4]]], ["aset", [k[0], k[1]], ak(), val()]])]
+    elif shape == 2:    # copy of a group into its own subtree
+        H += [["set", [k[0], k[1]], val()], ["set", [k[0], k[2], k[3]], val()]]
+        if rng.random() < 0.5:
+            H += [["aset", [k[0], k[2]], ak(), val()]]
+        H += mb()
+        H += [["copy", [k[0]], rng.choice([[k[0], k[4]], [k[0], k[2], k[4]], [k[0], k[4], k[1]], [k[0], k[2], k[4], k[0]]])]] + mb()
+        H += [rng.choice([["del", [k[0], k[1]]], ["set", [k[0], k[2], k[4], k[3]], val()], ["copy", [k[0], k[2]], [k[0], k[2], k[1]]]])]
+    else:               # delete / recreate of datasets with attributes, attribute carriers on datasets
+        H += [["set", [k[0]], val()], ["aset", [k[0]], ak(), val()]] + mb()
+        H += [["aset", [k[0]], ak(), val()]] + mb()
+        H += [rng.choice([["adel", [k[0]], attr_keys[0]], ["del", [k[0]]]])] + mb()
+        H += [rng.choice([["set", [k[0]], val()], ["grp", [k[0]]], ["aset", [k[0]], ak(), val()]])] + mb()
+        H += [["aset", [k[0]], ak(), val()]]
+    return H
+
+
+def gen_cases(ctx) -> List[List[Any]]:
+    rng = ctx.rng
+    cases = list(ih5lib.pattern_histories())
+    ntarget = ctx.budget(70, 1200)
+    nrand = ctx.budget(130, 2600)
+    maxops = ctx.budget(20, 36)
+    for i in range(ntarget + nrand):
+        keys = rng.sample(KEY_POOL, rng.randint(3, 6))
+        attr_keys = rng.sample(KEY_POOL, rng.randint(1, 3))
+        prefix = targeted(rng, keys, attr_keys) if i < ntarget else None
+        n = (len(prefix) + rng.randint(0, 8)) if prefix else rng.randint(4, maxops)
+        # copies of a group into its own subtree do not terminate on the pinned tree: every one
+        # costs a full time-out, so the random stream draws them rarely (the targeted stream
+        # and the fixed patterns always contain them)
+        ops = ih5lib.gen_history(rng, n, p_bnd=rng.choice([0.0, 0.1, 0.2, 0.35]), keys=keys,
+                                 attr_keys=attr_keys, prefix=prefix, values=VALUES,
+                                 allow_self_copy=(rng.random() < 0.25))
+        cases.append(_cap_boundaries(ops))
+    return cases
+
+
+# ---------------------------------------------------------------------------- main
+
 def run(ctx: vlib.Ctx):
     proof = ctx.check_proofs()
     cov = ctx.coverage
     cov["trusted_base"] = vlib.TRUSTED_COMMON + [
-        "modelled, not verified: single-file HDF5/h5py semantics (the plain specification tree, validated on every run against h5py.File itself), "
-        "h5py dataset options and numpy value semantics beyond equality of encoded values, links (refused by the code)",
+        "modelled, not verified: single-file HDF5/h5py semantics (the plain specification tree t_step, validated on every run "
+        "against h5py.File itself), h5py dataset options and numpy value semantics beyond equality of encoded values, "
+        "links (refused by the code); copy/move: refinement not proved, model and specification compared on every generated history",
     ]
-    rng = ctx.rng
-    cases = list(ih5lib.pattern_histories())
-    nrand = ctx.budget(220, 4000)
-    for i in range(nrand):
-        cases.append(ih5lib.gen_history(rng, rng.randint(4, ctx.budget(22, 40)),
-                                        p_bnd=rng.choice([0.0, 0.1, 0.2, 0.35])))
+    cases = gen_cases(ctx)
     model = vlib.run_model("c01", cases)
-    impl = vlib.pmap(w_both, cases, chunksize=4)
+    impl = vlib.pmap(w_both, cases, chunksize=2)
 
     disagreements: List[Dict[str, Any]] = []
     oracle_hits: List[Dict[str, Any]] = []
-    nsteps = 0
-    ok_steps = 0
+    nsteps = ok_steps = 0
     opkinds: Dict[str, int] = {}
     conts_hist: Dict[str, int] = {}
     distinct = set()
+    nontrivial = set()
+    raw_compared = 0
     for ci, (ops, m, (ih5, h5)) in enumerate(zip(cases, model, impl)):
         msteps, mconts = m
-        distinct.add(vlib.signature(ops))
+        sig = vlib.signature(ops)
+        distinct.add(sig)
         nb = sum(1 for o in ops if o[0] == "bnd") + 1
         conts_hist[str(nb)] = conts_hist.get(str(nb), 0) + 1
         for o in ops:
             opkinds[o[0]] = opkinds.get(o[0], 0) + 1
         d = first_diff(ih5, h5)
         if d is not None:
-            oracle_hits.append({"case": ci, "ops": ops, **d})
-        # correspondence model <-> code, spec <-> h5py
+            if d["cls"] == "harness":
+                disagreements.append({"kind": "harness", "case": ci, "ops": ops, "what": d["what"]})
+            else:
+                oracle_hits.append({"case": ci, "ops": ops, **d})
+        # correspondence: overlay model <-> IH5Record, specification tree <-> h5py.File
+        seen_bnd = False
         for i, (ms, s, t) in enumerate(zip(msteps, ih5["steps"], h5["steps"])):
             nsteps += 1
             mr, tr, eqflag, mview = ms
             mview = norm_view(mview)
-            if eqflag != "T":
-                disagreements.append({"kind": "model-internal", "case": ci, "step": i, "ops": ops,
-                                      "what": "overlay model view differs from specification tree (theorem C01_transparent contradicted?)"})
+            if eqflag != "T" or mr != tr:
+                disagreements.append({"kind": "model-internal", "case": ci, "step": i, "ops": ops[:i + 1],
+                                      "what": "overlay model and specification tree differ (C01_transparent contradicted for this history)"})
                 break
             if t[0] != tr or t[1] != mview:
                 disagreements.append({"kind": "spec-vs-h5py", "case": ci, "step": i, "ops": ops[:i + 1],
@@ -134,10 +257,15 @@ def run(ctx: vlib.Ctx):
                 disagreements.append({"kind": "model-vs-ih5", "case": ci, "step": i, "ops": ops[:i + 1],
                                       "model": [mr], "impl": [s[0]]})
                 break
-            if s[0] == "T":
+            if ops[i][0] == "bnd":
+                seen_bnd = True
+            elif s[0] == "T":
                 ok_steps += 1
+                if seen_bnd:
+                    nontrivial.add(sig)
         else:
             if ih5["raw"] is not None:
+                raw_compared += 1
                 mc = [norm_view(c) for c in mconts]
                 if mc != ih5["raw"]:
                     k = next((j for j, (x, y) in enumerate(zip(mc, ih5["raw"])) if x != y), min(len(mc), len(ih5["raw"])))
@@ -146,36 +274,56 @@ def run(ctx: vlib.Ctx):
                                           "impl": ih5["raw"][k] if k < len(ih5["raw"]) else None})
     ctx.sample({"history": cases[0], "model_final_view": norm_view(model[0][0][-1][3])})
     ctx.sample({"history": cases[len(ih5lib.pattern_histories()) + 1]})
+    ctx.sample({"history": cases[-1]})
 
-    # ---- oracle hits: shrink, dedupe by signature, report
+    # ---- oracle hits: pick a few per failure class and operation kind, shrink in parallel,
+    #      dedupe by canonical signature, report
+    groups: Dict[str, List[Dict[str, Any]]] = {}
+    for h in sorted(oracle_hits, key=lambda h: (h["step"], len(h["ops"]))):
+        groups.setdefault(f"{h['cls']}/{h['ops'][h['step']][0]}", []).append(h)
+    picked = [h for g in sorted(groups) for h in groups[g][:3]][:36]
+    shrunk = vlib.pmap(w_shrink, picked, chunksize=1) if picked else []
     seen = set()
-    for h in oracle_hits[:40]:
-        small = shrink(h["ops"])
-        d = oracle_fails(small) or {"step": -1, "what": h["what"]}
-        sig = {"history": canon_history(small), "step": d["step"], "what": d["what"].split(":")[0]}
+    unconfirmed = 0
+    for h, r in sorted(zip(picked, shrunk), key=lambda hr: len(hr[1]["ops"]) if hr[1] else 10**6):
+        if r is None:
+            unconfirmed += 1
+            continue
+        small, d = r["ops"], r["diff"]
+        sig = {"history": canon_history(small), "step": d["step"], "class": d["cls"]}
         key = vlib.signature(sig)
         if key in seen:
             continue
         seen.add(key)
-        ctx.violation(f"IH5 differs from a plain HDF5 tree at step {d['step']} of {small}: {d['what']}",
-                      {"kind": "history", "ops": small, "diff": d}, sig_obj=sig)
-        if len(seen) >= 8:
+        if len(seen) > 8:
             break
+        ctx.violation(f"IH5 differs from a plain HDF5 tree at step {d['step']} of {small}: {d['what']}",
+                      {"kind": "history", "ops": small, "diff": d, "canonical": sig}, sig_obj=sig)
+    if unconfirmed:
+        ctx.notes.append(f"{unconfirmed} oracle hit(s) did not reproduce when re-run alone (time-outs under load); not reported")
+    if oracle_hits and not seen and unconfirmed < len(picked):
+        ctx.notes.append("oracle hits present but none survived shrinking")
 
-    xc = vlib.coq_crosscheck("c01", cases, model, "c01", max_cases=12)
+    xc = vlib.coq_crosscheck("c01", cases, model, "c01", max_cases=ctx.budget(10, 40))
     cov["evaluations"] = len(cases)
-    cov["distinct_nontrivial"] = len(distinct)
-    cov["rule"] = ("targeted histories (replace-then-touch over >=3 containers, create below deleted ancestors, copies into own subtree, "
-                   "attributes on datasets across patches) + random histories from a shadow-tree-biased generator with a malformed-operation stream; "
-                   "distinct = distinct operation lists; all have >= 4 operations")
-    cov["input_distribution"] = {"histories": len(cases), "steps": nsteps, "steps_succeeding": ok_steps,
-                                 "op_kinds": opkinds, "containers_per_history": conts_hist}
+    cov["distinct_nontrivial"] = len(nontrivial)
+    cov["rule"] = ("fixed patterns + randomised targeted shapes (replace-then-touch over >=3 containers, create below deleted ancestors, "
+                   "copy of a group into its own subtree, attribute carriers on datasets) each followed by a random tail + random histories "
+                   "from a shadow-tree-biased generator with a malformed-operation stream; per-history key alphabet of 3-6 keys drawn from "
+                   "printable ASCII without '@' and '/'; boundaries at random positions, 1-6 containers; non-trivial = distinct history "
+                   "with at least one successful mutation after a boundary")
+    cov["input_distribution"] = {"histories": len(cases), "distinct_histories": len(distinct), "steps": nsteps,
+                                 "steps_succeeding": ok_steps, "op_kinds": opkinds,
+                                 "containers_per_history": conts_hist, "raw_container_sets_compared": raw_compared}
     cov["traces_validated_against_impl"] = len(cases) - len({d["case"] for d in disagreements if "case" in d})
     cov["coq_crosscheck"] = xc
     cov["disagreements"] = len(disagreements)
+    cov["disagreement_kinds"] = _hist(d["kind"] for d in disagreements)
     cov["oracle_failures"] = len(oracle_hits)
-    ctx.assumptions += ["keys from the IH5 alphabet (printable ASCII without '@' and '/')",
-                        "the IH5 deletion-marker value is not used as data (C17 covers its rejection)",
+    cov["proved_operations"] = ["create_group", "create_dataset", "delete", "attr set", "attr delete", "boundary"]
+    cov["unproved_operations_checked_by_correspondence_only"] = ["copy", "move"]
+    ctx.assumptions += ["keys from the IH5 alphabet (printable ASCII without '@' and '/'), the key '.' excluded (HDF5 reads it as the group itself)",
+                        "the IH5 deletion-marker value is not used as data (refused by code and model; C17 covers the guard)",
                         "moving a node into its own subtree excluded (as in the property)"]
 
     if not xc["ok"]:
@@ -186,13 +334,21 @@ def run(ctx: vlib.Ctx):
     if disagreements and not ctx.violations and not ctx.known_hits:
         d0 = min(disagreements, key=lambda d: len(d.get("ops", [])))
         ctx.violation("model/implementation correspondence broken but IH5 and plain HDF5 agree on every explored history: " + d0["kind"],
-                      {"kind": "correspondence", "correspondence": "coq/IH5/Overlay.v (m_step/t_step/raw containers) vs IH5Record / h5py.File",
+                      {"kind": "correspondence", "correspondence": "coq/IH5/Overlay.v (m_step / t_step / raw containers) vs IH5Record / h5py.File",
                        "smallest_disagreement": d0, "count": len(disagreements)}, found_input=False)
     elif disagreements:
-        ctx.notes.append(f"{len(disagreements)} model/impl disagreements, first kinds: {[d['kind'] for d in disagreements[:5]]}")
+        ctx.notes.append(f"{len(disagreements)} model/impl disagreements, kinds: {cov['disagreement_kinds']}")
+
+
+def _hist(it):
+    h: Dict[str, int] = {}
+    for x in it:
+        h[str(x)] = h.get(str(x), 0) + 1
+    return h
 
 
 def replay(rep) -> int:
+    """Re-run the recorded history on IH5Record and on h5py.File; 1 if they still differ."""
     vlib._pool_init()
     if rep.get("kind") != "history":
         print("replay names a proof obligation or correspondence; re-run the check itself")
